@@ -112,6 +112,26 @@ func (l *ledger) makeChan(o *opRec, kind string) {
 		}()
 		<-ready
 		time.Sleep(50 * time.Microsecond) // let the receiver park
+	case "unbuffered-late":
+		// the caller keeps receiving, but only starts a little after the call returned: a
+		// blocking send must wait for it
+		o.ch = make(chan error)
+		l.wg.Add(1)
+		go func() {
+			defer l.wg.Done()
+			for !o.returned.Load() {
+				time.Sleep(100 * time.Microsecond)
+			}
+			time.Sleep(time.Duration(1+o.ID%25) * time.Millisecond)
+			for {
+				select {
+				case err := <-o.ch:
+					o.addAnswer(err, l.clock.Tick())
+				case <-l.stop:
+					return
+				}
+			}
+		}()
 	case "nil":
 		o.ch = nil
 	}
@@ -295,6 +315,23 @@ func runC05(rc *RunCtx, i int) {
 	defer pm.uninstall(rc.Res)
 	var stopFlagged atomic.Int64
 	pm.on("stop.flagged", func() { stopFlagged.Store(env.clock.Tick()) })
+	// In a third of the histories the first callers that reach the point between the stopped
+	// check and the channel send after Stop was requested are held there until Stop returned
+	// (or 120 ms): exactly the window the state lock exists to close. Correct code keeps Stop
+	// out (the hold simply expires); code that lets Stop through strands the request.
+	var stopRequested, stopReturned atomic.Bool
+	var held atomic.Int32
+	hold := func() {
+		if i%3 != 0 || !stopRequested.Load() || held.Add(1) > 2 {
+			return
+		}
+		for t := 0; t < 240 && !stopReturned.Load(); t++ {
+			time.Sleep(500 * time.Microsecond)
+		}
+		rc.Res.Count("callers_held_across_stop", 1)
+	}
+	pm.on("ingest.beforeSend", hold)
+	pm.on("flush.beforeSend", hold)
 
 	desc := map[string]any{"case": env.w.Case, "shape": shape, "engine": env.spec, "fault_p": pf, "max_buffered_time": maxBufTime.String()}
 	producers := r.Range(2, 24)
@@ -322,7 +359,7 @@ func runC05(rc *RunCtx, i int) {
 				pl.kind = "flush"
 			}
 			pl.batch = core.Pick(gr, []string{"normal", "normal", "normal", "normal", "empty", "nilrows", "unmarshalable"})
-			pl.ch = core.Pick(gr, []string{"buffered", "buffered", "unbuffered", "nil"})
+			pl.ch = core.Pick(gr, []string{"buffered", "buffered", "unbuffered", "unbuffered-late", "nil"})
 			prodPlans[p] = append(prodPlans[p], pl)
 			totalOps++
 		}
@@ -421,7 +458,10 @@ func runC05(rc *RunCtx, i int) {
 	var stopErr error
 	stopDone := make(chan struct{})
 	go func() {
+		stopRequested.Store(true)
+		time.Sleep(200 * time.Microsecond) // let callers reach the hold points first
 		stopErr = e.Stop(context.Background())
+		stopReturned.Store(true)
 		close(stopDone)
 	}()
 	verdict := awaitProgress(stopDone)
